@@ -503,6 +503,28 @@ _EXTRA9 = {
 for _k, _v in _EXTRA9.items():
     CHECKS[_k]["rule"] += _v
 
+_EXTRA9B = {
+    "C02": " Ninth round (second half): exact-fit signatures with a quiet tail (s2 fills its buffer to the last bit; last 8..40 coefficients "
+           "below 128; the unary mass in front; norm well inside the bound).",
+    "C04": " Ninth round (second half): every second scripted candidate changes g as well, so that f' and g' share a root of X^n+1 modulo q.",
+    "C07": " Ninth round (second half): every compress call is repeated on copies of the vector placed 2, 4 and 6 bytes into an allocation "
+           "(misaligned slices).",
+    "C10": " Ninth round (second half): 120 traced Falcon-1024 signatures per quick run (bottom nodes whose right half samples to zero occur "
+           "in 4.5% of them).",
+    "C11": " Ninth round (second half): operands whose transform has one or two non-zero slots (c intt(e_i), boundary and random slots), in "
+           "both operand positions.",
+    "C12": " Ninth round (second half): call sequences over small operand pools (2..4 divisors, 12 calls, every result checked).",
+    "C13": " Ninth round (second half): complex-valued inputs: a real polynomial plus an imaginary part of relative size 1e-12 .. 1 (eleven "
+           "scales): nearly conjugate-symmetric spectra; oracles for split, merge(split) and inverse(forward).",
+    "C14": " Ninth round (second half): every input is hashed as 512, 1024, 512, 1024 in a row.",
+    "C15": " Ninth round (second half): one child process is PAUSED (SIGSTOP ... SIGCONT, 70 s quick / 150 s thorough) in the middle of a series "
+           "of Falcon-1024 key generations.",
+    "C16": " Ninth round (second half): crafted exact-fit signatures with a quiet tail: the reference verifier's verdict and falcon-rust's must agree.",
+    "C17": " Ninth round (second half): quotients holding aligned blocks (u, -u), up to k = u (1 - x^(n/2)).",
+}
+for _k, _v in _EXTRA9B.items():
+    CHECKS[_k]["rule"] += _v
+
 NOT_APPLICABLE = {}
 
 ENGINES = [
